@@ -541,3 +541,4 @@ fn inst_ne_with_guard() {
     };
     check(off, on, e);
 }
+
